@@ -35,6 +35,36 @@ KNOWN_LOCAL = [
 ]
 
 
+class Runaway(Exception):
+    """a history did not finish within the iteration budget (would be a hang / an endless virtual wait)"""
+
+
+class GuardedLoop(vloop.VirtualLoop):
+    LIMIT = 400_000          # loop iterations per history (a normal history needs a few thousand)
+
+    def _run_once(self):
+        if self.iterations > self.LIMIT:
+            raise Runaway(f'more than {self.LIMIT} loop iterations (virtual time {self._vt:.3f}s)')
+        super()._run_once()
+
+
+def run_guarded(loop, coro):
+    """loop.run(coro); anything escaping (CancelledError included) is returned as a name, never raised"""
+    try:
+        loop.run(coro)
+        return None
+    except (KeyboardInterrupt, SystemExit):
+        raise
+    except BaseException as e:  # noqa
+        return 'runaway' if isinstance(e, Runaway) else err_name(e)
+    finally:
+        try:
+            loop.LIMIT = loop.iterations + 50_000
+            loop.shutdown()
+        except BaseException:  # noqa
+            pass
+
+
 def report(ctx, what, replay):
     """ctx.violation, after the locally known findings (until the coordinator has registered them)"""
     for k in KNOWN_LOCAL:
@@ -183,6 +213,8 @@ async def apply_soup_op(session, tr, role, op, state):
             raise ValueError(k)
     except Exception as e:  # noqa
         err = err_name(e)
+    if explicit == 'close':
+        err = 'none'          # what close() raises is not a C10 observable (C05/C07)
     new = [w for _, w in tr.writes[before:]]
     mops = []
     if explicit is not None:
@@ -220,7 +252,7 @@ def run_soup_history(h):
     """h = {'role','init','connected','ops', 'login'?: {'req':pkt,'replies':[hex...]}}
     returns dict(trace=[(err, seq, n_model_ops)], mops=[...], writes=[bytes], login=(err, accepted, seq))"""
     role = h['role']
-    loop = vloop.VirtualLoop()
+    loop = GuardedLoop()
     out = {'trace': [], 'mops': [], 'writes': [], 'login': None, 'seq_after': []}
 
     async def main():
@@ -261,16 +293,10 @@ def run_soup_history(h):
         out['writes'] = [w for _, w in tr.writes]
         try:
             await session.close()
-        except Exception:  # noqa
+        except BaseException:  # noqa
             pass
 
-    try:
-        loop.run(main())
-    finally:
-        try:
-            loop.shutdown()
-        except Exception:  # noqa
-            pass
+    out['escaped'] = run_guarded(loop, main())
     return out
 
 
@@ -384,6 +410,10 @@ def check_soup_history(ctx, h, ans_for=None):
         report(ctx, f'soup history crashed the harness driver of the library: {err_name(e)}: {e}',
                {'kind': 'soup-history', 'history': h_json(h)})
         return
+    if out.get('escaped'):
+        ctx.count('history-did-not-complete:' + out['escaped'])
+        ctx.disagree(f'soup {h["role"]}: the history did not run to its end on the implementation ({out["escaped"]})',
+                     {'kind': 'soup-history', 'history': h_json(h)})
     bad = soup_oracle(h, out)
     if bad:
         def failing(c):
@@ -613,7 +643,7 @@ def run_fix_history(h):
        outcome = 'w <tag34>' | 'rej' | 'type' | 'enc' | other error name"""
     env = fixenv()
     fix = env['fix']
-    loop = vloop.VirtualLoop()
+    loop = GuardedLoop()
     out = {'events': [], 'frames': []}
 
     def outcome(err, new):
@@ -624,7 +654,7 @@ def run_fix_history(h):
     async def main():
         tr = vloop.FakeTransport(loop)
         cls = fix.Fix44Session if h['ver'] == '44' else fix.Fix50Session
-        session = cls(client_heartbeat_interval=HB, server_heartbeat_interval=1000)
+        session = cls(client_heartbeat_interval=HB, server_heartbeat_interval=1.0)
         session.connection_made(tr)
 
         def do_send(label, spec, comp_ascii=True, via_hb=False):
@@ -691,16 +721,10 @@ def run_fix_history(h):
         out['frames'] = [w for _, w in tr.writes]
         try:
             await session.close()
-        except Exception:  # noqa
+        except BaseException:  # noqa
             pass
 
-    try:
-        loop.run(main())
-    finally:
-        try:
-            loop.shutdown()
-        except Exception:  # noqa
-            pass
+    out['escaped'] = run_guarded(loop, main())
     return out
 
 
@@ -814,6 +838,10 @@ def check_fix_history(ctx, h, ans_for=None):
     except Exception as e:  # noqa
         report(ctx, f'FIX history could not be driven: {err_name(e)}: {e}', {'kind': 'fix-history', 'history': h})
         return None
+    if out.get('escaped'):
+        ctx.count('history-did-not-complete:' + out['escaped'])
+        ctx.disagree(f'FIX: the history did not run to its end on the implementation ({out["escaped"]})',
+                     {'kind': 'fix-history', 'history': h})
     bad = fix_oracle(h, out)
     if bad:
         def failing(c):
